@@ -1,4 +1,7 @@
 """C12 — replay log: events for a disconnected peer are kept and replayed in order.  DESIGN.md §2 C12."""
+import time
+
+from vlib import core, runner
 from .base import StdCheck
 
 
@@ -71,12 +74,93 @@ class C12(StdCheck):
     ]
     assumptions = ["timestamps are non-negative µs integers, exact in binary64", "one endpoint per non-local zone",
                    "the virtual clock advances by >= 1 µs per relayed event except in the named equal-stamp case"]
-    rule = ("1 named equal-timestamp case; 1 named regression case with a `null` record in the first of two files (F-C12b, fixed); 2 (thorough 5) three-file logs cut at EVERY byte offset of every file followed by ReplayLog; "
+    rule = ("1 named equal-timestamp case; 1 named regression case with a `null` record in the first of two files (F-C12b, fixed); 3 named receiver cases (messages with ts equal to the recorded position and 1 µs around it, also across crash and stop restarts); 2 (thorough 5) three-file logs cut at EVERY byte offset of every file followed by ReplayLog; "
             "1200 (thorough 6000) seeded random cases of 8..38 (..58) operations over relay (6 kinds of security object) / connect / "
-            "disconnect / ReplayLog / rotate / timer / acknowledge / receive / stop / crash (with byte loss) / start / object removal / "
+            "disconnect / ReplayLog / rotate / timer / acknowledge / receive (two thirds of them at the recorded remote position -1/0/+1 µs) / stop / crash (with byte loss) / start / object removal / "
             "counter preset 49998..50000 / permanent and temporary damage with random bytes, 3 peers with log_duration from "
             "{-1,0,5,60,3600,86400}, local node master or not. evaluations = "
             "operations compared; a case is non-trivial when a replay delivered at least one event (counted by the Lean driver)")
+
+    # --- shrinking under a budget: the check must end within minutes on a badly broken tree as well ---------------
+    max_shrunk = 3            # witnesses per spec clause, and model/implementation disagreements, that are shrunk
+    shrink_wall = 25.0        # seconds per witness
+    shrink_calls = 150        # harness invocations per witness
+    shrink_total = 170.0      # seconds for all witnesses of one run together
+
+    def shrink(self, harness, driver, case, prefix, sub=""):
+        """ddmin through the harness's ops mode, bounded by wall time and by the number of harness invocations; the best
+        reduction found so far is returned when a bound is hit."""
+        t0 = time.time()
+        deadline = min(t0 + self.shrink_wall, getattr(self, "_deadline", t0 + self.shrink_wall))
+        calls = [0]
+
+        def fails(ls):
+            if calls[0] >= self.shrink_calls or time.time() > deadline:
+                return False
+            calls[0] += 1
+            return self._fails(harness, driver, ls, prefix, sub)
+
+        hdr, ops = case[:1], case[1:]
+        if not fails(hdr + ops):
+            return case          # not reproducible in isolation, or no budget left: the observed case itself is the witness
+        ops = runner.ddmin(hdr, ops, fails)
+        if self._fails(harness, driver, hdr + ops, prefix, sub):
+            return open(self.work("shrink.out")).read().splitlines()
+        return case
+
+    def collect(self, res, lines, save, harness, driver):
+        """At most `max_shrunk` witnesses per clause and `max_shrunk` disagreements, the shortest failing cases first, each
+        cut after the line the driver complained about; everything else is only counted."""
+        if not hasattr(self, "_deadline"):
+            self._deadline = time.time() + self.shrink_total
+        bad = [l for l in lines if l.startswith("BADLINE")]
+        if bad:
+            res.corr_failures.append(runner.Finding("corr", "protocol", bad[:5]))
+        fails = [l for l in lines if l.startswith(("SPECFAIL", "MISMATCH"))]
+        if not fails:
+            return
+        all_lines = open(save, errors="replace").read().splitlines()
+        starts = [i for i, l in enumerate(all_lines) if l.startswith(self.case_start + " ")]
+        import bisect
+
+        def case_upto(line_no):
+            i = line_no - 1
+            k = bisect.bisect_right(starts, i) - 1
+            return all_lines[starts[k]:i + 1] if k >= 0 else []
+
+        groups = {}
+        for l in fails:
+            kv = core.parse_kv(l)
+            key = ("spec", kv.get("clause", "?")) if l.startswith("SPECFAIL") else ("corr", kv.get("op", "observation"))
+            try:
+                case = case_upto(int(kv["line"]))
+            except (KeyError, ValueError):
+                continue
+            if case:
+                groups.setdefault(key, []).append((len(case), case, l))
+        res.extra["failing_cases_by_kind"] = {f"{k[0]}:{k[1]}": len(v) for k, v in groups.items()}
+        n_corr = 0
+        # spec clauses first (they carry the concrete failing input), then disagreements
+        for key in sorted(groups, key=lambda k: (k[0] != "spec", k[1])):
+            cands = sorted(groups[key], key=lambda c: c[0])[:self.max_shrunk]
+            for _, case, l in cands:
+                if key[0] == "spec":
+                    shown = self.shrink(harness, driver, case, "SPECFAIL", "clause=" + key[1])
+                    res.spec_failures.append(runner.Finding("spec", f"spec:{self.prop}:{key[1]}", shown, {"driver": l}))
+                else:
+                    if n_corr >= self.max_shrunk:
+                        break
+                    n_corr += 1
+                    shown = self.shrink(harness, driver, case, "MISMATCH", "op=" + key[1])
+                    res.corr_failures.append(runner.Finding("corr", key[1], shown, {"driver": l}))
+
+    def correspondence(self, tier, seed, harness, driver):
+        self._deadline = time.time() + self.shrink_total
+        res = super().correspondence(tier, seed, harness, driver)
+        # the generic flow reports the FIRST finding of a clause: a witness of the recorded shape (F-C12a) must never
+        # stand in front of a different failure of the same clause
+        res.spec_failures.sort(key=lambda f: bool(equal_stamp_witness(f.what.split(":")[-1], [l for l in f.case_lines if l.strip()])))
+        return res
 
     def matches_known(self, entry, finding):
         fn = CLASSIFIERS.get(entry.get("classifier"))
